@@ -394,7 +394,11 @@ impl Range {
             let separator = [SYMBOL.hyphen, SYMBOL.hyphen, Range::STRING_SEPARATOR].join("");
             while !buf.starts_with(separator.as_bytes()) {
                 buf = vec![];
-                cursor.read_until(b'\n', &mut buf).unwrap();
+                let bytes_read = cursor.read_until(b'\n', &mut buf).unwrap();
+                if bytes_read == 0 {
+                    // end of input before the closing delimiter: without this the loop never ends
+                    return Err("Unable to parse multipart body, reached the end of stream and it does not contain boundary".to_string());
+                }
                 let separator = [SYMBOL.hyphen, SYMBOL.hyphen, Range::STRING_SEPARATOR].join("");
                 if !buf.starts_with(separator.as_bytes()) {
                     body = [body, buf.to_vec()].concat();
@@ -680,7 +684,11 @@ impl Range {
             let separator = [SYMBOL.hyphen, SYMBOL.hyphen, Range::STRING_SEPARATOR].join("");
             while !buf.starts_with(separator.as_bytes()) {
                 buf = vec![];
-                cursor.read_until(b'\n', &mut buf).unwrap();
+                let bytes_read = cursor.read_until(b'\n', &mut buf).unwrap();
+                if bytes_read == 0 {
+                    // end of input before the closing delimiter: without this the loop never ends
+                    return Err("Unable to parse multipart body, reached the end of stream and it does not contain boundary".to_string());
+                }
                 let separator = [SYMBOL.hyphen, SYMBOL.hyphen, Range::STRING_SEPARATOR].join("");
                 if !buf.starts_with(separator.as_bytes()) {
                     body = [body, buf.to_vec()].concat();
